@@ -117,6 +117,14 @@ def make_cases(tier: str):
     ]
     for s, t in fixed:
         add(s, t + (("escape-in-literal",) if "escape" in t and "raw" not in t else ()))
+    # implicit concatenation: every sequence of 2 (quick: and a third of those of 3) literals from a pool with EMPTY plain / f-string pieces
+    # and literal text at either end of an f-string, on one line and continued over lines (inner Constant spans cover merged pieces)
+    lits = ["''", "'a'", "f''", "f'a'", "f'{x}'", "f'a{x}'", "f'{x}a'", "f'a{x}b'", '"""m\nl"""', "f'{x}{y}'"]
+    seqs = list(itertools.product(lits, repeat=2)) + [t3 for i, t3 in enumerate(itertools.product(lits, repeat=3)) if tier == "thorough" or i % 3 == 0]
+    for sq in seqs:
+        tags = ("empty-literal-concat",) if any(x in ("''", "f''") for x in sq) else ()
+        add(" ".join(sq) + "\n", tags)
+        add("msg = (" + "\n       ".join(sq) + ")\n", tags)
     return cases
 
 
